@@ -1,3 +1,4 @@
 /- Aggregate: C08 conformity theorems (C08.lean) and the bounded-buffer theorems for MessagePack output (SlotCor2.lean). -/
 import AJ.Props.C08
 import AJ.Props.SlotCor2
+import AJ.Props.DocGen
